@@ -267,6 +267,9 @@ class _Inliner:
         rep = self.eager(st, loc)
         if rep is not None or self.eager_only:
             return rep
+        rep = self.hoist(st, loc)
+        if rep is not None:
+            return rep
         if isinstance(st, ast.Expr) and isinstance(st.value, ast.Call):
             return self.splice(st.value, lambda e, at: ([loc(ast.Expr(value=e))] if e is not None and not isinstance(e, ast.Constant) else []))
         if isinstance(st, ast.Assign) and len(st.targets) == 1 and isinstance(st.value, ast.Call):
@@ -324,7 +327,23 @@ class _Inliner:
             tgt = st.target
             stored_h = {n.id for n in ast.walk(h.node) if isinstance(n, ast.Name) and isinstance(n.ctx, (ast.Store, ast.Del))}
 
+            tnames = [tgt] if isinstance(tgt, ast.Name) else (list(tgt.elts) if isinstance(tgt, ast.Tuple) and all(isinstance(t, ast.Name) for t in tgt.elts) else None)
+            body_stores = {n.id for x in st.body for n in ast.walk(x) if isinstance(n, ast.Name) and isinstance(n.ctx, (ast.Store, ast.Del))}
+            used_later = False  # the loop variables are not read after the loop (checked by name over the rest of the function)
+            end = getattr(st, "end_lineno", st.lineno)
+            if tnames is not None:
+                tn = {t.id for t in tnames}
+                used_later = any(isinstance(n, ast.Name) and n.id in tn and isinstance(n.ctx, ast.Load) and n.lineno > end for n in ast.walk(self.f.node))
+
+            def plain(e):
+                return _simple_arg(e) or (isinstance(e, (ast.List, ast.Tuple)) and not e.elts)
+
             def emit(e, at):
+                # the loop variables stand for what is yielded: substituted where that is a plain expression the body does not rebind
+                vals = [e] if isinstance(tgt, ast.Name) else (list(e.elts) if isinstance(e, ast.Tuple) and tnames is not None and len(e.elts) == len(tnames) else None)
+                if tnames is not None and vals is not None and not used_later and all(plain(v) for v in vals) and not ({t.id for t in tnames} & body_stores):
+                    sub = _Subst({t.id: v for t, v in zip(tnames, vals)}, {})
+                    return [sub.visit(copy_tree(x)) for x in body_t]
                 asg = ast.Assign(targets=[copy_tree(tgt)], value=e)
                 ast.copy_location(asg, at)
                 return [ast.fix_missing_locations(asg)] + [copy_tree(x) for x in body_t]
@@ -368,6 +387,31 @@ class _Inliner:
         val = copy_tree(acc) if wrap in ("list", "set") else ast.Call(func=ast.Name(id=wrap, ctx=ast.Load()), args=[copy_tree(acc)], keywords=[])
         fin = ast.Return(value=val) if isinstance(st, ast.Return) else ast.Assign(targets=[copy_tree(st.targets[0])], value=val)
         return prelude + [loc(init)] + new + [loc(fin)]
+
+    def hoist(self, st, loc):
+        """x = f(h(a…), …) with h a multi-statement helper and nothing evaluated before h(a…) but names and attribute reads:
+        tmp = h(a…); x = f(tmp, …) — the helper call becomes a statement of its own, which can then be spliced"""
+        if not (isinstance(st, (ast.Assign, ast.Expr, ast.Return)) and isinstance(st.value, ast.Call)):
+            return None
+        outer = st.value
+        if not outer.args or not isinstance(outer.args[0], ast.Call) or not _simple_arg(outer.func):
+            return None
+        inner = outer.args[0]
+        h, base = self.helper(inner)
+        if h is None:
+            return None
+        hb = [s_ for s_ in h.node.body if not (isinstance(s_, ast.Expr) and isinstance(s_.value, ast.Constant))]
+        if len(hb) == 1 and isinstance(hb[0], ast.Return):
+            return None  # substituted in place by exprs()
+        if any(isinstance(x, (ast.Yield, ast.YieldFrom)) for x in walk_local(h.node)):
+            return None
+        self.count += 1
+        tmp = "arg__h%d" % self.count
+        first = loc(ast.Assign(targets=[ast.Name(id=tmp, ctx=ast.Store())], value=inner))
+        second = copy_tree(st)
+        second.value.args[0] = ast.copy_location(ast.Name(id=tmp, ctx=ast.Load()), inner)
+        first.value = copy_tree(inner)
+        return [first, second]
 
     def branch_condition(self, st, loc):
         """`if [pre and] h(a…) [and post]: B1 else: B2` with h a multi-statement predicate helper: h's body is spliced in with every
